@@ -9,17 +9,17 @@ func init() {
 			"Non-trivial: every operation of the history returned without error on a container with >= 2 rows (queries); at least one mutation changed a byte (ownership); distinct = distinct JSON form of the case",
 		Assumptions: []string{
 			"ownership is asserted only for what the statement names: clones, sub-alignments (SubAlign, RandSubAlign) and site selections; Sample/Rarefy (which share row slices with their source), Transpose, BuildBootstrap, Unalign, Split, Consensus, CodonAlign results are only checked not to modify their input",
-			"Phase is not executed when a sequence has no positively scoring alignment with any reference: a worker goroutine of the phaser then dereferences nil and the process dies (a defect of phasing, outside this property; props/c19/FINDINGS.md); such histories are counted in excluded_known under phase-no-positive-alignment",
+			"Phase is not executed when a sequence has no positively scoring alignment with any reference: a worker goroutine of the phaser then dereferences nil and the process dies (a defect of phasing, outside this property; props/c19/FINDINGS.md); such histories are counted in excluded_known under phase-no-positive-alignment; every Phase operation runs in a child process of the test (a crash there is recorded as a class, not judged)",
 			"the snapshot is read through IterateAll, GetSequence, NbSequences, Length and Alphabet, which are trusted not to modify the container",
 			"absence of violations is established on the explored cases only",
 		},
-		LevelText: "Generated-input search with a before/after deep-snapshot oracle: ~100 000 (quick) to ~5 million (thorough) histories of read-only / copy-producing operations and mutate-the-copy / mutate-the-source scenarios on alignments and sequence sets. Shows absence of hidden mutation and aliasing on what was explored.",
+		LevelText: "Generated-input search with a before/after deep-snapshot oracle: ~100 000 (quick) to ~3 million (thorough) histories of read-only / copy-producing operations and mutate-the-copy / mutate-the-source scenarios on alignments and sequence sets. Shows absence of hidden mutation and aliasing on what was explored.",
 		LevelNote: "trusts the snapshot accessors; operations that panic or fail are recorded as classes, not judged",
 		Technique: "property-based testing (rapid): frame condition (deep snapshot equality) over operation histories; two-directional aliasing test by in-place mutation",
 		DesignRef: "DESIGN.md section 5, C19",
 		Runs: []runSpec{
-			{Name: "queries", Test: "^TestQueries$", Quick: 60000, Thorough: 300000, Shards: 8},
-			{Name: "ownership", Test: "^TestOwnership$", Quick: 60000, Thorough: 300000, Shards: 8},
+			{Name: "queries", Test: "^TestQueries$", Quick: 60000, Thorough: 200000, Shards: 8},
+			{Name: "ownership", Test: "^TestOwnership$", Quick: 60000, Thorough: 200000, Shards: 8},
 		},
 	})
 }
